@@ -78,6 +78,7 @@ _W = [
     "{ anchor(req: 1, inn: {v: 1}, lnn: [1]) { ... on AnchorObj { n: name } ... on Query { n: __typename } ...ExF } } "
     "fragment ExF on AnchorObj { ... on AnchorObj { n: id } }",
 ]
+_EXCL = (_W[-2], _W[-1])   # the two orders of the seeded C06-a witness
 # C05-07: a fragment spread inside its own nested same-key fields (RecursionError before the fix)
 _W += ["{ anchor(req: 1, inn: {v: 1}, lnn: [1]) { ...G } } fragment G on AnchorObj { self { ...G self { ...G } } }",
        "{ anchor(req: 1, inn: {v: 1}, lnn: [1]) { ...G } } fragment G on AnchorObj { self { self { ...G } ...G } }",
@@ -86,6 +87,9 @@ _W += ["{ anchor(req: 1, inn: {v: 1}, lnn: [1]) { ...G } } fragment G on AnchorO
 _W += ["mutation ($v0: Int = 42) { k8: anchor(req: 42, inn: {v: $v0}, lnn: [1]) { id } }"]
 # seeded C05-b / C06-b: variable positions (see gen_valid.variable_position_forms)
 _W += [gen_valid.render({"defs": defs}, "plain") for _n, defs in gen_valid.variable_position_forms(random.Random(7))]
+# seeded C06-c: fragment names coinciding with names of other namespaces
+_NS = gen_valid.namespace_collision_forms(random.Random(7))
+_W += [gen_valid.render({"defs": defs}, "plain") for _n, _l, defs in _NS]
 # seeded C05-a: a fragment's field node is the first of two merged nodes at two places
 _MERGE = ("{ a: anchor(req: 1, inn: {v: 1}, lnn: [1]) { ...MF self { name } } "
           "b: anchor(req: 1, inn: {v: 1}, lnn: [1]) { ...MF self { count } } } "
